@@ -24,6 +24,15 @@ NOT_FORWARDED = {
 }
 
 
+# keywords absorbed by a callee's **kwargs on the unchanged tree, confirmed by reading (module, caller, callee, keyword): reason
+ABSORBED_TODAY = {
+    ("crystal/crystal.py", "Crystal.normalize_hydrogen_bondlengths", "unit_cell_connectivity", "bond_tolerance"):
+        "the source really ignores the value (unit_cell_connectivity's parameter is called `tolerance`): normalize_hydrogen_bondlengths always perceives "
+        "bonds with the default 0.4 A.  A latent slip of the source, but outside every property statement here: the bonds it perceives are the same "
+        "for every history (C14 compares with a fresh crystal given the same calls), and no C04 query runs through it.  Recorded in DESIGN 9.5 round 9",
+}
+
+
 def rid_of(chk):
     return f"R{chk.pid[1:]}.18"
 
@@ -120,6 +129,48 @@ def run(chk):
                         chk.ob(rid, rel, q, f"the call {t.name}(...) passes the caller's `{p}` on ({t.name} has a parameter of that name; without it "
                                f"the callee runs with its own default whatever the caller was asked for)", False, node=c, fingerprint=f"not-passed:{q}:{t.name}:{p}",
                                expected=f"{t.name}(..., {p}={p})", found=ast.unparse(c)[:140])
+    # third clause: a keyword handed to a same-class method / same-module function that has no parameter of that name is absorbed by the
+    # callee's **kwargs; the callee must then take it out of **kwargs (a string constant of that name in its body) or hand **kwargs on --
+    # otherwise the keyword is accepted and ignored (seed C04-25: the callee's `tolerance` renamed, the caller still passing tolerance=...)
+    for rel, quals in sorted(sites.items()):
+        try:
+            mod = chk.repo.module(rel)
+        except Exception:      # noqa: BLE001
+            continue
+        for q in sorted(mod.funcs):
+            fn = mod.funcs.get(q)
+            if not isinstance(fn, (ast.FunctionDef, ast.AsyncFunctionDef)):
+                continue
+            cls = q.rsplit(".", 1)[0] if "." in q else None
+            for c in ast.walk(fn):
+                if not isinstance(c, ast.Call) or not c.keywords:
+                    continue
+                t = None
+                if isinstance(c.func, ast.Attribute) and isinstance(c.func.value, ast.Name) and c.func.value.id in ("self", "cls") and cls:
+                    t = mod.funcs.get(f"{cls}.{c.func.attr}")
+                elif isinstance(c.func, ast.Name):
+                    t = mod.funcs.get(c.func.id)
+                if not isinstance(t, (ast.FunctionDef, ast.AsyncFunctionDef)) or t is fn or t.args.kwarg is None:
+                    continue
+                tq = f"{cls}.{t.name}" if cls and f"{cls}.{t.name}" in mod.funcs and mod.funcs[f"{cls}.{t.name}"] is t else t.name
+                if not (q in quals or tq in quals):
+                    continue
+                kw = t.args.kwarg.arg
+                hands_on = any(isinstance(x, ast.keyword) and x.arg is None and isinstance(x.value, ast.Name) and x.value.id == kw for x in ast.walk(t)) \
+                    or any(isinstance(x, ast.Call) and any(isinstance(a_, ast.Name) and a_.id == kw for a_ in x.args) for x in ast.walk(t)) \
+                    or any(isinstance(x, (ast.For, ast.comprehension)) and any(isinstance(y, ast.Name) and y.id == kw for y in ast.walk(x.iter)) for x in ast.walk(t))
+                if hands_on:
+                    continue
+                consts = {x.value for x in ast.walk(t) if isinstance(x, ast.Constant) and isinstance(x.value, str)}
+                n += 1
+                for k in c.keywords:
+                    if k.arg is None or k.arg in _params(t) or k.arg in consts or (rel, q, t.name, k.arg) in ABSORBED_TODAY:
+                        continue
+                    bad += 1
+                    chk.ob(rid, rel, q, f"the keyword `{k.arg}` of the call {t.name}(...) is taken by the callee: {t.name} has no parameter of that name, its "
+                           f"**{kw} absorbs the keyword, and nothing in its body takes `{k.arg}` out of **{kw} or hands **{kw} on (the value is ignored)", False,
+                           node=c, fingerprint=f"absorbed:{q}:{t.name}:{k.arg}", expected=f"a parameter or {kw}.get('{k.arg}') in {t.name}",
+                           found=ast.unparse(c)[:140])
     if not bad:
         chk.ob(rid, "-", "-", f"no accepted parameter is dropped on the way to a callee that takes it ({n} functions with obligations read)", True,
                fingerprint="forwarding:none")
